@@ -200,6 +200,36 @@ CLAIMED["C14"] = dict(
     note=TRUST + "CPython's allocator and recursion limit are observed, not proved; crypto oracles raise only ordinary exceptions.",
     design="§8 C14", technique="Lean 4 proof (totality, typing and cost invariants of an instrumented decoder) + differential correspondence")
 
+CLAIMED["C10"] = dict(
+    text="Lean theorems about the model of ServerContext and of one iteration of UdpServerThread.run, for every pool content, datagram, "
+         "handler behaviour and random stream: get_token - if it returns - yields a token not in use in either pool, non-zero, below 2^31 "
+         "with bit 30 set (C10_tokens_distinct, C10_new_token_fresh); handling a queued datagram produces message events only for the "
+         "entry of the connected pool at that address and with its identity, a connect event only when the temp-pool entry's "
+         "_recv_datagram called _onConnect on a CHALLENGE_RESP-typed datagram (which by C02 opened under its key and carries its token), "
+         "never a disconnect (C10_item_events); the shutdown sweep gives every connected client exactly one disconnect and ends with "
+         "shutdown. The per-connection regular expression connect.message*.disconnect over whole histories is checked by the monitor on "
+         "the event log of the REAL loop on every run (partial as one theorem). The loop model is tied to server.py/context.py/twisted.py "
+         "by executing the unmodified UdpServerThread.run deterministically on the harness thread against real client connections, "
+         "comparing per iteration the ordered handler events with identities and tokens, the sends and both pools; a threaded smoke run "
+         "checks that all handler events run on one thread.",
+    note=TRUST + "thread identity is a runtime fact (observed, not proved); handler.connect is modelled after _recv_datagram returns; cases are "
+         "recorded runs (real EC keys/signatures), not re-executable bit for bit.",
+    design="§8 C10", technique="Lean 4 proof (per-step event provenance, token freshness) + recorded differential of the real server loop")
+
+CLAIMED["C11"] = dict(
+    text="Lean theorems about the entry point and the loop model, for every datagram, pool content and handler behaviour: a block-listed ip is "
+         "refused at the entry point before the header is even parsed (C11_blocklist_first); only datagrams whose 20 header bytes parse as "
+         "a header addressed to the server are queued; handling a datagram from address A leaves the entries of every other address in "
+         "both pools untouched (C11_isolation); strangers are ignored unless their header is typed CLIENT_HELLO and temp-pool addresses "
+         "unless CHALLENGE_RESP; an unpromoted connection never emits keep-alives and the hello handler queues at most the one "
+         "SERVER_HELLO. The loop model is a total function whose exception paths are explicit 'contained' branches. Tied to the real "
+         "loop as in C10 with hostile streams (random bytes 0..2000, garbage bodies, truncated/complete strangers' hellos, block-listed "
+         "sources, spoofed damaged/stale/re-typed copies of genuine datagrams) at MTU 512/1500; the monitor measures bytes in/out per "
+         "unpromoted address, block-list silence and loop liveness.",
+    note=TRUST + "exceptions from C extensions / OS errors / CPU exhaustion outside; the byte inequality of no-amplification rests on DER sizes "
+         "and C14's fixed hello size - measured on every run, not a Lean theorem (partial).",
+    design="§8 C11", technique="Lean 4 proof (entry gating, frame/isolation of the pools, structural no-amplification) + recorded differential of the real server loop")
+
 REASON_PENDING = "model and theorems for this property are not built yet in this revision (planned, see DESIGN.md §13); not claimed until its check exists"
 
 def main():
